@@ -1,0 +1,48 @@
+//go:build verif
+
+package completion
+
+// VerifGroup is a copy of the fields of a completion group that fix its grid and
+// its selector. Verification builds only.
+type VerifGroup struct {
+	Tag       string
+	Rows      [][]string // the Value of each cell
+	Aliased   bool
+	MaxX      int
+	MaxY      int
+	Columns   int // len(columnsWidth)
+	PosX      int
+	PosY      int
+	IsCurrent bool
+	TermWidth int
+}
+
+// VerifGroups returns the groups the engine currently holds.
+// Verification builds only.
+func (e *Engine) VerifGroups() []VerifGroup {
+	out := make([]VerifGroup, 0, len(e.groups))
+
+	for _, g := range e.groups {
+		rows := make([][]string, len(g.rows))
+		for i, row := range g.rows {
+			rows[i] = make([]string, len(row))
+			for j, val := range row {
+				rows[i][j] = val.Value
+			}
+		}
+
+		out = append(out, VerifGroup{
+			Tag: g.tag, Rows: rows, Aliased: g.aliased, MaxX: g.maxX, MaxY: g.maxY,
+			Columns: len(g.columnsWidth), PosX: g.posX, PosY: g.posY, IsCurrent: g.isCurrent,
+			TermWidth: g.termWidth,
+		})
+	}
+
+	return out
+}
+
+// VerifSelected returns the value of the candidate currently inserted in the
+// completed line ("" when there is none). Verification builds only.
+func (e *Engine) VerifSelected() string {
+	return e.selected.Value
+}
